@@ -42,7 +42,7 @@ import term_image.utils as U  # noqa: E402
 assert U.__file__.startswith(SRC), U.__file__
 
 TERM = 0
-GRANT_TIMEOUT = 20.0
+GRANT_TIMEOUT = 90.0  # never reached in practice; generous because checks run on loaded machines
 
 
 class Harness:
@@ -54,12 +54,17 @@ class Harness:
         self.locks = []
         self.by_ident = {}
         self.error = None
+        self.abort = False
 
     def me(self):
         return self.by_ident[threading.get_ident()]
 
     def ev(self, w, *e):
         self.log.append([w.tid, list(e)])
+
+
+class Abort(BaseException):
+    """the run is over: unwinds a worker that is still parked (no thread is left behind)"""
 
 
 class Worker:
@@ -74,10 +79,14 @@ class Worker:
         self.thread = threading.Thread(target=self.main, daemon=True)
 
     def park(self, kind, obj=None):
+        if self.h.abort:
+            raise Abort()
         self.at = (kind, obj)
         self.parked.set()
         self.go.acquire()
         self.at = None
+        if self.h.abort:
+            raise Abort()
 
     def main(self):
         h = self.h
@@ -89,6 +98,8 @@ class Worker:
                 U._process_run_wrapper(h.procobj[self.proc])
             else:
                 self.run_program()
+        except Abort:
+            pass
         except BaseException as e:  # noqa: BLE001
             h.error = "worker %d: %s: %s" % (self.tid, type(e).__name__, e)
         self.finished = True
@@ -239,12 +250,9 @@ def run_schedule(case):
         if not w.parked.wait(GRANT_TIMEOUT):
             return {"error": "worker %d did not reach its first park" % w.tid}
 
-    def grant(tid):
+    def can_move(tid):
         if tid == TERM:
-            if h.reqs:
-                h.reps.append(h.reqs.pop(0))
-                return True
-            return False
+            return bool(h.reqs)
         w = h.workers.get(tid)
         if w is None or w.finished or not w.started or w.at is None:
             return False
@@ -253,6 +261,15 @@ def run_schedule(case):
             return False
         if kind == "wait" and not h.reps:
             return False
+        return True
+
+    def grant(tid):
+        if not can_move(tid):
+            return False
+        if tid == TERM:
+            h.reps.append(h.reqs.pop(0))
+            return True
+        w = h.workers[tid]
         w.parked.clear()
         w.go.release()
         if not w.parked.wait(GRANT_TIMEOUT):
@@ -261,10 +278,13 @@ def run_schedule(case):
 
     sched = list(case["sched"])
     effective = []
+    enabled = []
     try:
         for tid in sched:
             grant(tid)
             effective.append(tid)
+        # who could move now (used by the exhaustive enumeration of the thorough tier)
+        enabled = [tid for tid in [TERM] + sorted(h.workers) if can_move(tid)]
         # completion: round-robin until every worker is finished (recorded, replayed in Coq)
         ids = [TERM] + sorted(h.workers)
         for _ in range(case.get("completion_rounds", 400)):
@@ -285,8 +305,16 @@ def run_schedule(case):
     except RuntimeError as e:
         h.error = str(e)
     unfinished = [w.tid for w in h.workers.values() if not w.finished]
+    log, error = list(h.log), h.error
+    # the run is over: unwind the workers that are still parked
+    h.abort = True
+    for w in h.workers.values():
+        w.go.release()
+    for w in h.workers.values():
+        w.thread.join(GRANT_TIMEOUT)
+    h.log, h.error = log, error
     return {"log": h.log, "sched": effective, "unfinished": unfinished, "error": h.error,
-            "locks_made": len(made)}
+            "locks_made": len(made), "enabled": enabled}
 
 
 # ------------------------------------------------------------------ real processes
